@@ -79,6 +79,9 @@ def run_case(case):
         else:
             pongs.append(lat[i] if i < len(lat) else case.get("default_lat", 0.01))
     spec = {"timeline": timeline, "pong": pongs, "default_pong": None if silent_from is not None else case.get("default_lat", 0.01)}
+    if case.get("pong_with_data"):
+        # the peer answers each ping with a data frame and the pong in one segment (the pong must not wait for later traffic)
+        spec["pong_prefix"] = rm.encode_frame(1, rm.TEXT, b"status update " * case["pong_with_data"])
     rerun = bool(case.get("rerun"))
     first = {"timeline": [[3 * I + 1, ["data", rm.encode_frame(1, rm.CLOSE, struct.pack(">H", 1000))]]], "default_pong": 0.01}
     sc = simpeers.Scenario(sched, net, [first, spec] if rerun else [spec])
@@ -172,7 +175,7 @@ def _cls(obs, case, npings):
     nt = npings >= 3 and (silent or near)
     obs.cls = (f"ratio:{'I<=2T' if T and I <= 2 * T else 'I>2T'}", f"silent:{int(silent)}", f"traffic:{min(len(tr), 4)}", f"near_ping_traffic:{int(near)}",
                f"pings:{min(npings // 5 * 5, 30)}", f"late_pongs:{int(any(l is not None and T and l >= T for l in case.get('pong', [])))}", f"tls:{int(bool(case.get('secure')))}", f"second_run:{int(bool(case.get('rerun')))}")
-    obs.nt = repr((I, T, case.get("pong"), case.get("silent_from"), tr, case.get("choices"), sorted((case.get("preempt") or {}).items()), case.get("payload"), case.get("secure"), case.get("rerun"))) if nt else None
+    obs.nt = repr((I, T, case.get("pong"), case.get("silent_from"), tr, case.get("choices"), sorted((case.get("preempt") or {}).items()), case.get("payload"), case.get("secure"), case.get("rerun"), case.get("pong_with_data"))) if nt else None
     return obs
 
 
@@ -190,6 +193,8 @@ def grid_cases():
             yield {"interval": I, "timeout": T, "payload": "keepalive", "traffic": [[2 * I + 0.5 * T, "data"], [3 * I - 0.2, "pong"], [5 * I + T + 0.5, "pong"], [7 * I, "ping"]]}
             yield {"interval": I, "timeout": T, "secure": True, "traffic": [[2 * I + 0.5 * T, "data"], [3 * I - 0.2, "pong"], [5 * I + T + 0.5, "pong"]]}
             yield {"interval": I, "timeout": T, "secure": True, "silent_from": 1, "traffic": [[3 * I + 0.3 * T, "data"], [3 * I + 0.9 * T, "data"]]}
+            yield {"interval": I, "timeout": T, "pong_with_data": 1}
+            yield {"interval": I, "timeout": T, "pong_with_data": 30, "secure": True}
             yield {"interval": I, "timeout": T, "rerun": True, "silent_from": 1}
             yield {"interval": I, "timeout": T, "rerun": True, "payload": "again"}
             for n in (0, 1, 3):
@@ -204,7 +209,7 @@ def cases(draw):
     T = draw(st.sampled_from(TS))
     I = draw(st.sampled_from(ratios(T)))
     c = {"interval": I, "timeout": T, "payload": draw(st.sampled_from(["", "", "hb", "é"])), "secure": draw(st.integers(0, 2)) == 0,
-         "rerun": draw(st.integers(0, 3)) == 0}
+         "rerun": draw(st.integers(0, 3)) == 0, "pong_with_data": draw(st.sampled_from([0, 0, 1, 20]))}
     mode = draw(st.sampled_from(["responsive", "responsive", "silent", "silent", "late"]))
     if mode == "silent":
         c["silent_from"] = draw(st.integers(0, 6))
